@@ -54,8 +54,11 @@ class C10(Check):
             pass
 
     def generate(self, rng, stratum, tier):
-        dt = rng.choice([1e-3, 0.01, 0.02])
-        steps = rng.randint(20, 80)
+        # step sizes incl. ones that are not short decimal fractions (the step size is printed into the generated source)
+        dt = rng.choice([1e-3, 0.01, 0.02, 1e-3, 0.01, 6.25e-5, 0.000244140625, 1.234567e-3, 3.3e-7])
+        # rows are stored every m-th step: the history must still be fed at every solver step with that step's time
+        m = rng.choice([1, 1, 2, 4, 5])
+        steps = m * rng.randint(max(2, 20 // m), 80 // m)
         edges_mode = stratum in ('S-edges', 'S-edges-vec')
         libs = ('lin', 'leak', 'integ') if edges_mode else rng.choice([('dd',), ('ddt',), ('dd', 'lin'), ('ddt', 'dd', 'lin'),
                                                                          ('cdd',)])
@@ -67,7 +70,7 @@ class C10(Check):
         spec = models.gen_net(rng, n_nodes=rng.randint(1, 4), libs=libs, max_edges=5, delays=delays if edges_mode else None,
                               build='python' if rng.random() < 0.7 else 'yaml')
         set_taus(rng, spec, dt, steps)
-        cfg = {'dt': dt, 'steps': steps, 'level': 'func' if stratum in ('S-func', 'S-edges', 'S-edges-vec') else 'run',
+        cfg = {'dt': dt, 'steps': steps, 'm': m, 'level': 'func' if stratum in ('S-func', 'S-edges', 'S-edges-vec') else 'run',
                'backend': 'torch' if stratum == 'S-torch' else 'default',
                'solver': {'S-run-euler': rng.choice(['euler', 'euler', 'heun']), 'S-run-scipy': 'scipy',
                           'S-torch': rng.choice(['euler', 'scipy'])}.get(stratum, 'scipy'),
@@ -244,8 +247,11 @@ class C10(Check):
         bump('run_' + cfg['solver'])
         outputs = {f'o{i}': n for i, n in enumerate(names)}
         try:
+            skw = {'sampling_step_size': cfg['m'] * dt} if cfg.get('m', 1) > 1 else {}
+            if skw:
+                bump('subsampled')
             R = c.run(T, dt, outputs=outputs, solver=cfg['solver'], vectorize=cfg['vectorize'], float_precision=prec,
-                      decorator=rec, verbose=False, backend=cfg.get('backend', 'default'),
+                      decorator=rec, verbose=False, backend=cfg.get('backend', 'default'), **skw,
                       **(cfg.get('run_kw', {}) if cfg['solver'] == 'scipy' else {}))
         except Exception as e:
             if not rec.events:
